@@ -1,7 +1,7 @@
 #!/bin/bash
 # usage: tools_run_all.sh quick|thorough [props...]  — run the checks sequentially, one log per property under build/logs/all-<tier>/
 TIER=${1:-quick}; shift
-PROPS=${@:-C01 C03 C04 C06 C07 C08 C09 C10 C11 C12 C13 C15 C17 C18 C19 C20}
+PROPS=${@:-C01 C02 C03 C04 C06 C07 C08 C09 C10 C11 C12 C13 C14 C15 C17 C18 C19 C20}
 cd "$(dirname "$0")"
 mkdir -p build/logs/all-$TIER
 for p in $PROPS; do
